@@ -69,6 +69,10 @@ func (c *Ctx) judge(sc *Scenario, o *sched.Outcome, res, solo []string) {
 func soloResults(jobs []int) []string {
 	out := make([]string, len(jobs))
 	for i, j := range jobs {
+		if e, ok := Expected(j); ok {
+			out[i] = e
+			continue
+		}
 		out[i] = RunJob(j, g.ConfigNopNano, SharedWarrior())
 	}
 	return out
